@@ -6,3 +6,6 @@ pub mod sx;
 pub mod driver;
 pub mod report;
 pub mod json;
+pub mod instr_sx;
+pub mod corpus;
+pub mod gen_prog;
